@@ -223,14 +223,20 @@ func clobber(r *rand.Rand, b []byte, pattern string) {
 }
 
 func fail(c *C, cs *Case, what, before, after string) {
-	c.Check(false, fmt.Sprintf("%s [%s %s lazy=%v]: %s", what, cs.Type, family(cs.Dyn), cs.Lazy, firstDiff(before, after)), cs, "alias:"+cs.Stage)
+	snapshot := *cs // the caller reuses its Case variable
+	snapshot.liveSrc, snapshot.liveDst = nil, nil
+	c.Check(false, fmt.Sprintf("%s [%s %s lazy=%v]: %s", what, cs.Type, family(cs.Dyn), cs.Lazy, firstDiff(before, after)), snapshot, "alias:"+cs.Stage)
 }
 
 func runCase(c *C, cs *Case) {
 	if rootByName[cs.Type] == nil && cs.Stage != "delim" {
 		return
 	}
-	defer c.Recover(cs.Stage, cs, "panic:"+cs.Stage)
+	{
+		snapshot := *cs
+		snapshot.liveSrc, snapshot.liveDst = nil, nil
+		defer c.Recover(cs.Stage, snapshot, "panic:"+cs.Stage)
+	}
 	c.Hist("stage:" + cs.Stage)
 	switch cs.Stage {
 	case "overwrite":
@@ -282,7 +288,7 @@ func caseOverwriteForce(c *C, cs *Case) {
 	b := append([]byte{}, vh.UnHex(cs.In)...)
 	m, err := cs.decode(b)
 	if err != nil {
-		c.Check(false, "decoding the same bytes twice gave different errors", cs, "nondeterministic-decode")
+		c.Check(false, "decoding the same bytes twice gave different errors", *cs, "nondeterministic-decode")
 		return
 	}
 	clobber(rnd, b, cs.Pattern)
@@ -680,7 +686,6 @@ func run(c *C) {
 					cs.Stage, cs.Seed, cs.Discard, cs.Prefill = "clone", c.Rand.Int63(), false, ""
 					if i%2 == 0 {
 						cs.Built, cs.liveSrc = true, m
-						cs.In = vh.Hex(b[:0])
 						if mb, err := partial.Marshal(m.Interface()); err == nil {
 							cs.In = vh.Hex(mb)
 						}
